@@ -74,6 +74,9 @@ mkdir -p "$OUT.tmp"
 (cd "$S/harness" && go build -trimpath $RACE -o "$OUT.tmp/harness" . ) >&2 || { rm -rf "$OUT.tmp"; fail "harness build failed"; }
 cp "$S/lib.manifest.json" "$S/bltree.manifest.json" "$OUT.tmp/"
 rm -rf "$OUT"; mv "$OUT.tmp" "$OUT"
-# keep the 6 most recent cache entries
-ls -1dt "$CACHE"/*/ 2>/dev/null | tail -n +7 | xargs -r rm -rf
+# prune: beyond the 6 most recent entries, remove those not used for 3 hours (a running check
+# touches its entry while it runs, so a binary in use is never removed under it)
+ls -1dt "$CACHE"/*/ 2>/dev/null | grep -v '/logs/$' | tail -n +7 | while read -r d; do
+  if [ -n "$(find "$d" -maxdepth 0 -mmin +180 2>/dev/null)" ]; then rm -rf "$d"; fi
+done
 echo "$OUT/harness"
